@@ -72,7 +72,7 @@ def crosscheck(con, k, seed, repo_root, verif_root):
     if not isinstance(con, C.Contract) or con.region is not None:
         return out
     rng = random.Random((seed << 8) ^ (hash(con.name) & 0xffff))
-    cfg = C.make_config(repo_root, verif_root)
+    cfg = C.make_config(repo_root, verif_root, unit=con)
     cfg.target = con.func
     # pure interpretation of every body: this checks the interpreter, not the contracts (ghost-traced externals stay)
     kept = {}
@@ -107,7 +107,7 @@ def crosscheck(con, k, seed, repo_root, verif_root):
             saved_globals.append((mod, gname, getattr(mod, gname)))
             setattr(mod, gname, gv)
             env[gname] = gv
-        ext = C._native_externals(b.values)
+        ext = C._native_externals(b.values, unit=con)
         ext.__enter__()
         try:
             nres = con.func(*args, **kwargs)
